@@ -71,6 +71,64 @@ Proof.
 Qed.
 Print Assumptions C01_K_N.
 
+(* what Solve RETURNS is the best value after that last trial, which is not larger: the same bounds hold for it *)
+Theorem C01_reported_best_dimension_one : forall (p : params (T := R)) (phi : R -> R) (H : R),
+  (1 < p_r p)%R -> (0 <= H)%R -> (forall x y, (0 <= x <= 1)%R -> (0 <= y <= 1)%R -> (Rabs (phi x - phi y) <= H * Rabs (x - y))%R) ->
+  forall k s s' x eps, (1 <= k)%nat -> PhiRun p phi k s -> Impl.step r_ops p s (Value (phi x)) = (s', Done x) ->
+  (2 * H <= p_r p * sM s)%R -> ltb r_ops (mind s) eps = false -> ltb r_ops (mind s') eps = true ->
+  forall y, (0 <= y <= 1)%R -> (sZ s' - phi y < p_r p * sM s / 2 * eps)%R.
+Proof. exact agp_certificate_1d_final. Qed.
+Print Assumptions C01_reported_best_dimension_one.
+
+Theorem C01_reported_best_dimensions_2_to_5 : forall (n m : nat) (lo hi : list R) (S : R) (f : list R -> R) (L : R) (p : params (T := R)),
+  dim_ok n -> (1 <= m)%nat -> length lo = n -> length hi = n -> (0 <= S)%R -> sides_ok S lo hi -> (0 <= L)%R ->
+  (forall Y Y', in_boxR lo hi Y -> in_boxR lo hi Y' -> (Rabs (f Y - f Y') <= L * sqrt (dist2R Y Y'))%R) ->
+  (1 < p_r p)%R ->
+  forall k s s' x eps, (1 <= k)%nat -> PhiRunN (rootn n) (fun a => (a ^ n)%R) p (phi_of n m lo hi f) k s ->
+  Impl.step (rn_ops n) p s (Value (phi_of n m lo hi f x)) = (s', Done x) ->
+  (4 * cn n * (2 * sqrt (INR n + 3) * L * S) <= p_r p * sM s)%R ->
+  ltb (rn_ops n) (mind s) eps = false -> ltb (rn_ops n) (mind s') eps = true ->
+  forall Y, in_boxR lo hi Y ->
+  (sZ s' - f Y < p_r p * sM s / 2 * eps + L * S / 2 ^ m * (sqrt (INR n + 3) + sqrt (INR n) / 2))%R.
+Proof.
+  intros n m lo hi S f L p Hd Hm Llo Lhi HS Sides HL Lip Hr.
+  apply (certificate_box_final n (all_ok_dim n Hd) ltac:(unfold dim_ok in Hd; lia) m Hm lo hi S Llo Lhi HS Sides f L HL Lip p Hr).
+Qed.
+Print Assumptions C01_reported_best_dimensions_2_to_5.
+
+(* The statement in terms of Solve itself. A fresh solver; the answers are the objective at the (images of the) trial points
+   (Driven); Solve ends without an exception and the accuracy test is what holds at the end ("the requested accuracy eps was
+   reached"). Then the state s in which the last interval was selected is a state of the run, the trial made from it yields the
+   final state, and if the reliability condition holds for the estimate M of that state, the RETURNED best value is within the
+   bound of the objective everywhere. (pinf is the initial value of the accuracy estimate: eps below it means that the
+   accuracy was not "reached" before the first subdivision.) *)
+Theorem C01_solve_dimension_one : forall (p : params (T := R)) (phi : R -> R) (ans : nat -> answer R) (H : R),
+  (1 < p_r p)%R -> (0 <= H)%R -> (forall x y, (0 <= x <= 1)%R -> (0 <= y <= 1)%R -> (Rabs (phi x - phi y) <= H * Rabs (x - y))%R) ->
+  Driven (fun d => d) (fun a => a) p phi ans -> ltb r_ops (pinf r_ops) (p_eps p) = false ->
+  forall s_f xs, Solves r_ops p ans (init_st r_ops) s_f xs false -> ltb r_ops (mind s_f) (p_eps p) = true ->
+  exists s x, (exists k xs0, steps r_ops p ans k (init_st r_ops) = Some (s, xs0)) /\
+              Impl.step r_ops p s (Value (phi x)) = (s_f, Done x) /\ ltb r_ops (mind s) (p_eps p) = false /\
+              ((2 * H <= p_r p * sM s)%R -> forall y, (0 <= y <= 1)%R -> (sZ s_f - phi y < p_r p * sM s / 2 * p_eps p)%R).
+Proof. exact solve_certificate_1d. Qed.
+Print Assumptions C01_solve_dimension_one.
+
+Theorem C01_solve_dimensions_2_to_5 : forall (n m : nat) (lo hi : list R) (S : R) (f : list R -> R) (L : R) (p : params (T := R)) (ans : nat -> answer R),
+  dim_ok n -> (1 <= m)%nat -> length lo = n -> length hi = n -> (0 <= S)%R -> sides_ok S lo hi -> (0 <= L)%R ->
+  (forall Y Y', in_boxR lo hi Y -> in_boxR lo hi Y' -> (Rabs (f Y - f Y') <= L * sqrt (dist2R Y Y'))%R) ->
+  (1 < p_r p)%R ->
+  Driven (rootn n) (fun a => (a ^ n)%R) p (phi_of n m lo hi f) ans -> ltb (rn_ops n) (pinf (rn_ops n)) (p_eps p) = false ->
+  forall s_f xs, Solves (rn_ops n) p ans (init_st (rn_ops n)) s_f xs false -> ltb (rn_ops n) (mind s_f) (p_eps p) = true ->
+  exists s x, (exists k xs0, steps (rn_ops n) p ans k (init_st (rn_ops n)) = Some (s, xs0)) /\
+              Impl.step (rn_ops n) p s (Value (phi_of n m lo hi f x)) = (s_f, Done x) /\ ltb (rn_ops n) (mind s) (p_eps p) = false /\
+              ((4 * cn n * (2 * sqrt (INR n + 3) * L * S) <= p_r p * sM s)%R ->
+               forall Y, in_boxR lo hi Y ->
+               (sZ s_f - f Y < p_r p * sM s / 2 * p_eps p + L * S / 2 ^ m * (sqrt (INR n + 3) + sqrt (INR n) / 2))%R).
+Proof.
+  intros n m lo hi S f L p ans Hd Hm Llo Lhi HS Sides HL Lip Hr.
+  apply (solve_certificate_box n (all_ok_dim n Hd) ltac:(unfold dim_ok in Hd; lia) m Hm lo hi S Llo Lhi HS Sides f L HL Lip p ans Hr).
+Qed.
+Print Assumptions C01_solve_dimensions_2_to_5.
+
 (* the literal reading (M = largest slope seen by the time Solve returns) is FALSE of the algorithm: kernel-evaluated witness *)
 Theorem C01_final_M_reading_refuted :
   exists s, phi_steps cex_phi 12 (init_st q_ops) = Some s /\ stop q_ops cex_p s = true /\ Qle_bool (p_eps cex_p) (mind s) = false /\
